@@ -848,7 +848,14 @@ pub fn engine_suite(ctx: &Ctx) -> ShardOut {
                 if prop == "C04" && kt == KeyType::Str {
                     continue;
                 }
+                // the interpreter runs one variant of each script (alternating key types)
+                if cfg!(miri) && prop != "C04" && (kt == KeyType::Str) != (dir_idx % 2 == 0) {
+                    continue;
+                }
                 for ctor in [0u8, 1] {
+                    if cfg!(miri) && ctor == 1 {
+                        continue;
+                    }
                     let cfg = cfg.clone().with_ctor(ctor);
                     let mut opts = RunOpts::new(props, uni.clone());
                     opts.lookup_audit = props.c03;
